@@ -20,13 +20,15 @@ EXPLANATION = (
     "'value equals the constructor default'; enum representations must match the constructor's lookup (by name / by "
     "value); hand-written representations take their prefix from package_of (no literal alias); import_statement and "
     "package_of split on the same alias cases; every class and inf/nan/array is exported through __all__ and the "
-    "package's star imports; thorough tier checks the constructor calls of the 71 shipped example modules"
+    "package's star imports; Engine.__init__ (through which the representation rebuilds the engine) re-points the terms of input and "
+    "output variables; no engine component whose class defines __len__ (variables, rule blocks) is used as a truth value (R13); "
+    "thorough tier checks the constructor calls of the 71 shipped example modules"
 )
 ASSUMPTIONS = [
     "digit-exactness of builtins.repr(float), black formatting and string quoting are not decided",
     "classes wrapping callables (NormLambda, HedgeLambda) are not representable by design",
 ]
-FLOORS = {"H7": 4, "R11": 11, "R12": 1, "R1": 60, "R2": 9, "R5": 4, "R6": 3, "R7": 16, "R8": 1, "R9": 3, "T10": 4}
+FLOORS = {"R13": 2, "H7": 4, "R11": 11, "R12": 1, "R1": 60, "R2": 9, "R5": 4, "R6": 3, "R7": 16, "R8": 1, "R9": 3, "T10": 4}
 
 NOT_REPRESENTABLE = {"NormLambda": "wraps a Python callable", "HedgeLambda": "wraps a Python callable"}
 DIRECTIVES = {("Engine", "load"), ("Function", "load"), ("Linear", "engine"), ("Function", "engine")}
@@ -156,6 +158,9 @@ def run(check: Check) -> None:
     exports(check)
     python_exporter(check)
     repr_limits(check)
+    from .common import component_truthiness
+
+    component_truthiness(check, "R13")
     from .c13 import engine_init
 
     engine_init(check)  # the representation rebuilds the engine through Engine(...): its terms must be re-pointed to the new engine
